@@ -97,6 +97,13 @@ def scenario(res, seed, tier):
     if mode != "rendezvous":
         kw["hasher"] = make_hasher(mode)
     hc = hashmod.HashClient(specs, **kw)
+    if rng.random() < 0.3:
+        # a reconfiguration attempt with a malformed address fails; rotation must be unaffected
+        for bad in ("10.0.0.99:1121l", ["not", "a", "spec"]):
+            try:
+                hc.add_server(bad)
+            except Exception:
+                res.count("failed_add_server_attempts")
     # ---- key set
     nkeys = rng.choice([0, 1, 2, 3, 5, 8, 13, 30, 50])
     use_bytes = rng.random() < 0.3
